@@ -100,22 +100,25 @@ def make_adapter(kind):
     }[kind]
 
 
-def scenario(kind, masked, limit, how, location, cstep_h, npub):
+def scenario(kind, masked, limit, how, location, cstep_h, npub, second_h=None):
     """One complete run; returns (received list, saved file names, files left, exception)."""
     prod = Producer(hlib.T0, timedelta(days=1), masked, units="m/s" if "per_time" in kind else "m")
     cons = Recorder(hlib.T0, timedelta(hours=cstep_h))
+    cons2 = Recorder(hlib.T0, timedelta(hours=second_h)) if second_h else None
     kw = {}
     if how == "composition":
         kw = dict(slot_memory_limit=limit, slot_memory_location=location)
     elif how == "slot_limit_composition_location":
         kw = dict(slot_memory_location=location)
-    comp = hlib.make_composition([prod, cons], **kw)
+    comp = hlib.make_composition([prod, cons] + ([cons2] if cons2 else []), **kw)
     mk = make_adapter(kind)
     ada = mk() if mk else None
     if ada is not None:
         prod.outputs["Out"] >> ada >> cons.inputs["In"]
     else:
         prod.outputs["Out"] >> cons.inputs["In"]
+    if cons2 is not None:
+        prod.outputs["Out"] >> cons2.inputs["In"]
     if how in ("slot", "slot_limit_composition_location"):
         slot = ada if ada is not None else prod.outputs["Out"]
         slot.memory_limit = limit
@@ -146,22 +149,23 @@ def scenario(kind, masked, limit, how, location, cstep_h, npub):
         np.save = orig_save
         np.ma.MaskedArray.dump = orig_dump
     left = sorted(os.listdir(location)) if location and os.path.isdir(location) else []
-    return cons.got, saved, left, exc
+    return cons.got + (cons2.got if cons2 else []), saved, left, exc
 
 
 def h_spill(ctx):
     p = ctx.params
     kind, masked = p["kind"], p["masked"]
     cstep_h, npub = p.get("cstep_h", 36), p.get("npub", 5)
+    second_h = p.get("second_h")
     hlib.reset_finam_state()
     limit = ctx.int("limit", lo=-1, hi=NBYTES * (npub + 2))
     how = ["composition", "slot", "slot_limit_composition_location"][ctx.choice("how", 3)]
-    ref, _s, _l, ref_exc = scenario(kind, masked, None, "slot", None, cstep_h, npub)
+    ref, _s, _l, ref_exc = scenario(kind, masked, None, "slot", None, cstep_h, npub, second_h)
     if ref_exc is not None:
         raise symx.HarnessError(f"reference run without limit failed: {ref_exc!r}")
     loc = tempfile.mkdtemp(prefix="vf_c10_")
     try:
-        got, saved, left, exc = scenario(kind, masked, limit, how, loc, cstep_h, npub)
+        got, saved, left, exc = scenario(kind, masked, limit, how, loc, cstep_h, npub, second_h)
     finally:
         shutil.rmtree(loc, ignore_errors=True)
     sig = f"{kind}:{'masked' if masked else 'plain'}"
@@ -212,4 +216,13 @@ def families(tier):
                            f"consumer step {cstep_h} h; limit symbolic in [-1, {NBYTES * (npub + 2)}] bytes, per slot or "
                            f"composition-wide",
                     must_cover=["spilled", "all-in-ram"], workers=4))
+    # a second, slower consumer directly on the output: several publications are still buffered at finalization
+    for kind in (("output", "linear") if q else ("output", "linear", "next", "avg")):
+        for masked in (False, True):
+            fams.append(dict(
+                name=f"spill2:{kind}:{'masked' if masked else 'plain'}", ref="vf.props.c10:h_spill",
+                params={"kind": kind, "masked": masked, "cstep_h": 24, "npub": 5, "second_h": 60},
+                bounds=f"as spill:{kind} with daily consumer plus a second consumer (step 60 h) directly on the output; run "
+                       f"ends with several publications still buffered",
+                must_cover=["spilled", "all-in-ram"], workers=4))
     return fams
